@@ -179,7 +179,7 @@ pub fn spec() -> Spec<Case> {
         id: "C01",
         level: "exploration",
         rule: "generated: 1-3 base files (0-60 unique-token lines; LF/CRLF; with/without final newline; ASCII/multibyte/diff-lookalike line styles; plain and unusual file names) + 1-2 rounds of 1-8 edits by a human and up to 3 agent sessions (insert/delete/replace/intra-line token add/delete/re-indent/trailing-ws; R2 adds filler lines, EOL flips) each ending in `git add -A && git commit` through the wrapper. Oracle: content-addressed model vs note (independent v3 parser) and `git-ai blame --json`, on exactly the lines an independent `git diff -U0` parse says the commit added. non-trivial = script has AI and human steps on the same file, or has an AI step and content in the hostile/CRLF/multibyte/odd-name/no-final-newline class; distinct by hash of the case".into(),
-        cases_quick: 280,
+        cases_quick: 420,
         cases_thorough: 6000,
         shrink_iters: 60,
         workers: 14,
